@@ -5,6 +5,7 @@ from engine.rulelib import fnview
 from engine.cfg import render, strip_ref, subexprs
 
 CRATES = ["lightning_signer", "vls_protocol_signer"]
+OPTIONAL_CRATES = ["vls_persist"]
 LS = "lightning_signer::"
 TR = LS + "chain::tracker::ChainTracker::<L>"
 VAL = LS + "policy::validator::Validator"
@@ -34,6 +35,9 @@ CLASSES = effects.Classes({
 })
 
 
+CLAIM["text"] += (" (R13.6) restart clause, where the build has a persistence layer: every persisted field of channel entry, node "
+                  "state, tracker and monitors is serialised and restored into the same slot (same obligations as C11 R11.2).")
+
 def run(ctx):
     ctx.explanation = CLAIM["text"]
     ctx.not_decided = "PoW / retarget arithmetic inside rust-bitcoin; TXOO proof semantics"
@@ -42,6 +46,7 @@ def run(ctx):
     r133(ctx)
     r134(ctx)
     r135(ctx)
+    r_restore(ctx)
 
 
 def r131(ctx, rid="R13.1"):
@@ -331,3 +336,8 @@ def r135(ctx):
                    f"Node::new builds the tracker with oracle set `{render(a)[:100]}`", where=f"{nb.file}:{c.line}",
                    sample="services.trusted_oracle_pubkeys")
     ctx.floor("R13.5", "tracker constructor calls in Node::new", n, 1)
+
+
+def r_restore(ctx):
+    from rules import C11 as _c11
+    _c11.shared_restore(ctx, "R13.6", "tip, height, header window, watches and monitors are what a restarted tracker continues from.")
